@@ -53,6 +53,8 @@ func checkC16(r *core.Run) {
 	c16NoSelfRequestUnderLock(r)
 	c16LocksReleased(r)
 	c16TickerPeriod(r)
+	c16GlobalMapsSynchronised(r)
+	c17SizeBoundaries(r)
 	semaphoreReleased(r, "semaphore-released")
 	kvSizeBoundaryAgreement(r)
 }
